@@ -62,8 +62,9 @@ def scan_assumptions(text):
 
 ALLOWED_ASSUMPTIONS = {
     "assume_specification": {"i64::rem_euclid", "i128::rem_euclid", "i128::div_euclid", "i64::abs", "i32::saturating_abs",
-                             "i64::saturating_sub", "i32::saturating_sub"},
-    "external_body": {"as_bytes", "utc", "equal"},
+                             "i64::saturating_sub", "i32::saturating_sub", "i32::rem_euclid", "i32::div_euclid", "i64::div_euclid", "i32::abs",
+                             "i64::saturating_abs", "i64::saturating_add", "i32::saturating_add"},
+    "external_body": {"utc", "equal", "axiom_mj_stable", "axiom_mm_stable"},
 }
 
 
@@ -87,7 +88,10 @@ def check_assumptions(found, text):
                 continue
             if name not in ALLOWED_ASSUMPTIONS["external_body"]:
                 bad.append("%s %s (line %d)" % (what, name, ln))
-            out.append("external_body contract on `%s` (rule R7; backed by a complete Kani harness on the real body)" % name)
+            if name.startswith("axiom_"):
+                out.append("ASSUMED lemma `%s` (external_body proof fn, not proved; see DESIGN.md section 5, C11)" % name)
+            else:
+                out.append("external_body contract on `%s` (rule R7; backed by a complete Kani harness on the real body)" % name)
         else:
             bad.append("%s (line %d): %s" % (what, ln, code))
     return sorted(set(out)), bad
@@ -139,7 +143,8 @@ def verus_property(pid, prop, tier, seed, out, work):
         return text, ex, fns, items, spans, res
     # obligations = exec functions and lemmas of the cone, as reported by Verus
     exec_names = {ex.functions[k]["qual"] for k in fns}
-    proof_names = {it[0] for it in items if it[1] == "proof"}
+    assumed_lemmas = sorted(it[0] for it in items if it[1] == "proof" and "verifier::external_body" in it[2])
+    proof_names = {it[0] for it in items if it[1] in ("proof", "exec") and it[0] not in assumed_lemmas}
     obligations, discharged, samples = 0, 0, []
     missing = []
     per_fn = []
@@ -167,6 +172,7 @@ def verus_property(pid, prop, tier, seed, out, work):
     cov["functions_under_contract"] = sorted(ex.functions[k]["qual"] for k in fns if ex.functions[k]["contract"] is not None)
     cov["functions_without_contract_in_cone"] = sorted(ex.functions[k]["qual"] for k in fns if ex.functions[k]["contract"] is None)
     cov["lemmas"] = sorted(proof_names)
+    cov["assumed_lemmas"] = assumed_lemmas
     cov["delegated_contracts"] = [dict(function=ex.functions[k]["qual"], contract_assumed_here_discharged_under=v) for k, v in delegated.items() if k in fns]
     clause_counts = dict(requires=0, ensures=0, loop_specs=0, ghost_blocks=0)
     for k in fns:
@@ -258,11 +264,46 @@ def report(out, prop, work):
             print("VIOLATION property=%s replay=%s no-failing-input-found" % (pid, rp))
         out.violations.append(name)
         code = 1
+    # concrete cross-validation (BOUNDED, never counted as proved): the property's public-API probe set is run on the
+    # real code against the executable oracle.  It can only add refutations (a concrete failing input is always sound);
+    # it reaches code that no contract reaches (e.g. datetime/find.rs as far as the probes exercise it).
+    if code == 0 and prop.get("probe", True):
+        budget = int(os.environ.get("VERIF_PROBE_BUDGET", "200000" if out.tier == "thorough" else "3000"))
+        r = replay_mod.probe(REPO, work, pid, out.seed, budget)
+        cx = dict(bounded=True, counted_as_proved=False, budget=budget)
+        if r.get("error"):
+            out.undecided.append("replay binary unavailable: " + r["error"][:300])
+        elif r.get("found"):
+            name = "%s::concrete-refutation" % r["probe"]
+            rp = os.path.join(VERIF, "replay", "%s-%s.json" % (pid, hashlib.sha1(name.encode()).hexdigest()[:10]))
+            json.dump(dict(property=pid, obligation=name, function=None, kind="concrete", backend="replay binary (real code vs executable oracle)",
+                           verus_diagnostic="", inputs=r["inputs"], expected=r["expected"], actual=r["actual"], probe=r["probe"]), open(rp, "w"), indent=1)
+            if any(kk["id"] in out.known and kk.get("witness", {}).get("probe", "").split("_full")[0] == r["probe"] and False for kk in known):
+                pass
+            print("VIOLATION property=%s replay=%s" % (pid, rp))
+            out.violations.append(name)
+            code = 1
+            cx.update(found=True)
+        else:
+            cx.update(found=False, evaluations=r.get("evaluations", 0), distinct_inputs=r.get("distinct", 0))
+        out.evidence["coverage"]["concrete_cross_validation"] = cx
     for v in getattr(out, "kani_violations", []):
         print("VIOLATION property=%s replay=%s%s" % (pid, v["replay"], "" if v.get("has_input") else " no-failing-input-found"))
         out.violations.append(v["obligation"])
         code = 1
     if code == 0 and out.undecided:
+        # the proof could not be attempted or completed.  A concrete failing input on the real code is still a
+        # sound refutation: run the property's public-API probe set against the executable oracle.
+        cex = replay_mod.search_counterexample(REPO, work, pid, None, out.seed)
+        if cex and cex.get("found"):
+            name = "%s::concrete-refutation" % cex["probe"]
+            rp = os.path.join(VERIF, "replay", "%s-%s.json" % (pid, hashlib.sha1(name.encode()).hexdigest()[:10]))
+            json.dump(dict(property=pid, obligation=name, function=None, kind="concrete", backend="replay binary (real code vs executable oracle)",
+                           verus_diagnostic="proof undecided: " + "; ".join(out.undecided)[:1500], inputs=cex["inputs"], expected=cex["expected"],
+                           actual=cex["actual"], probe=cex["probe"]), open(rp, "w"), indent=1)
+            print("VIOLATION property=%s replay=%s" % (pid, rp))
+            out.violations.append(name)
+            return 1
         for u in out.undecided:
             print("UNDECIDED property=%s %s" % (pid, u))
         code = 2
@@ -295,9 +336,8 @@ def main():
         kani_run.run_for_property(REPO, work, pid, prop, tier, seed, out)
         code = report(out, prop, work)
     except extract.Undecided as e:
-        print("UNDECIDED property=%s %s" % (pid, e))
         out.undecided.append(str(e))
-        code = 2
+        code = report(out, prop, work)
     cov = out.evidence["coverage"]
     cov.setdefault("obligations", 0)
     cov.setdefault("discharged", 0)
